@@ -63,7 +63,7 @@ def cmd_import(src, prop):
         meta = load_meta("%s-%d" % (prop, k))
         meta["property"] = prop
         meta["origin"] = "independent sub-agent given only the property text and a scratch worktree"
-        meta["base"] = sh(["git", "-C", REPO, "rev-parse", "--short", "HEAD"]).stdout.strip()
+        meta["base"] = (sh(["git", "-C", src, "rev-parse", "--short", "HEAD"]).stdout.strip() or BASE)[:7]
         save_meta("%s-%d" % (prop, k), meta)
         print("imported", dst)
 
